@@ -540,3 +540,63 @@ Proof.
   - rewrite <- Hv, <- H2. destruct (N.eqb_spec (uc_code (skipn q cs)) 10) as [E|E]; [rewrite E; reflexivity|].
     apply Z.eqb_neq. lia.
 Qed.
+
+(* ------------------------------------------------------------------ the memory of a scan *)
+(* the buffer, the static "" of uc_chr / lbuf_chr, and the two int cells row / off outside them *)
+Record mot_mem (m : mem) (lb bln : nat) (lbs : list nat) (lines : list bytes) (br bo : nat) : Prop := mk_mot_mem {
+  mm_rep : lbuf_at m lb bln lbs lines;
+  mm_lit : str_at m G_lit__0 [];
+  mm_ne : br <> bo;
+  mm_nr : ~ In br (G_lit__0 :: lb :: bln :: lbs);
+  mm_no : ~ In bo (G_lit__0 :: lb :: bln :: lbs);
+  mm_lr : (br < length m)%nat;
+  mm_lo : (bo < length m)%nat
+}.
+Lemma mot_mem_set_pos m lb bln lbs lines br bo r o : mot_mem m lb bln lbs lines br bo ->
+  mot_mem (set_pos m br bo r o) lb bln lbs lines br bo /\ cell_at (set_pos m br bo r o) br r /\ cell_at (set_pos m br bo r o) bo o.
+Proof.
+  intros [R Hl Hne Nr No Lr Lo]. split; [|apply set_pos_cells; assumption].
+  constructor; try assumption; try (rewrite set_pos_length by assumption; assumption).
+  - apply lbuf_at_set_pos; try assumption; intro H; [apply Nr|apply No]; right; exact H.
+  - unfold str_at. rewrite set_pos_other; try assumption; intros E; [apply Nr|apply No]; left; congruence.
+Qed.
+
+(* rows and offsets for which *off + dir, *row + dir and -dir cannot overflow (dir = 1 or -1) *)
+Definition pos_ok (r o : Z) : Prop := -2147483647 <= r <= 2147483646 /\ -2147483647 <= o <= 2147483646.
+Definition dir_ok (dir : Z) : Prop := dir = 1 \/ dir = -1.
+
+Lemma getl_some lines r l : getl (map chop lines) r = Some l -> exists i, rowidx lines r = Some i /\ l = chop (nthl lines i).
+Proof. rewrite getl_rowidx. destruct (rowidx lines r) as [i|]; [|discriminate]. cbn. intro E. injection E as <-. exists i. split; reflexivity. Qed.
+
+Lemma lbuf_next_pos_ok lines dir r o s r' o' : lines_small lines -> Forall nonul lines -> dir_ok dir -> pos_ok r o ->
+  lbuf_next (map chop lines) dir r o = (s, r', o') -> pos_ok r' o'.
+Proof.
+  intros Hsm Hn Hd [Hr Ho]. set (b := map chop lines).
+  assert (Hlen : 0 <= blen b <= 2147483647) by (unfold blen, b; rewrite map_length; destruct Hsm; lia).
+  assert (Hrow : forall x l, getl b x = Some l -> 0 <= x < blen b /\ 0 <= slen l <= 2147483647).
+  { intros x l E. destruct (getl_some _ _ _ E) as (i & Ei & ->). destruct (rowidx_lt _ _ _ Ei) as [Hi ->].
+    split; [unfold blen, b; rewrite map_length; lia|apply slen_small; assumption]. }
+  unfold lbuf_next. set (r1 := if (dir <? 0) && (r >=? blen b) then Z.max 0 (blen b - 1) else r).
+  assert (Hr1 : -2147483647 <= r1 <= 2147483646) by (unfold r1; destruct ((dir <? 0) && (r >=? blen b)); lia).
+  unfold lbuf_lnnext. destruct (getl b r1) as [l|] eqn:El.
+  - destruct (Hrow _ _ El) as [_ Hl]. destruct ((o + dir <? 0) || (o + dir >=? slen l)) eqn:Ec.
+    + destruct (getl b (r1 + dir)) as [l2|] eqn:E2; intro E; injection E as <- <- <-; [|split; assumption].
+      destruct (Hrow _ _ E2) as [Hx Hl2]. split; [lia|]. destruct (0 <? dir); [lia|].
+      unfold lbuf_eol. rewrite E2. destruct (slen l2 =? 0); lia.
+    + intro E; injection E as <- <- <-. split; [assumption|]. apply orb_false_iff in Ec. destruct Ec as [E1 E2].
+      apply Z.ltb_ge in E1. rewrite Z.geb_leb in E2. apply Z.leb_gt in E2. lia.
+  - destruct (getl b (r1 + dir)) as [l2|] eqn:E2; intro E; injection E as <- <- <-; [|split; assumption].
+    destruct (Hrow _ _ E2) as [Hx Hl2]. split; [lia|]. destruct (0 <? dir); [lia|].
+    unfold lbuf_eol. rewrite E2. destruct (slen l2 =? 0); lia.
+Qed.
+
+(* lbuf_next on the memory of a scan: status, the cells rewritten *)
+Lemma next_call m lb bln lbs lines br bo r o dir d fuel : mot_mem m lb bln lbs lines br bo -> lines_small lines ->
+  (maxlen lines < fuel)%nat -> cell_at m br r -> cell_at m bo o -> pos_ok r o -> dir_ok dir ->
+  callf cprog fuel (S (S (S (S d)))) F_lbuf_next [VPtr lb 0; VInt dir; VPtr br 0; VPtr bo 0] m
+  = let '(s, r', o') := lbuf_next (map chop lines) dir r o in Ok (st_val s, set_pos m br bo r' o').
+Proof.
+  intros [R Hl Hne Nr No Lr Lo] Hsm Hf Hr Ho [Pr Po] Hd.
+  apply (tr_lbuf_next m lb bln lbs lines br bo r o dir d fuel); try assumption; try (intro H; first [apply Nr|apply No]; right; exact H);
+    unfold i32; destruct Hd as [-> | ->]; lia.
+Qed.
